@@ -38,9 +38,9 @@ type c51Params struct {
 	keyColumns   string   // "KeyColumns"
 	keyPositions string   // "Positions"
 	readerSites  []c51Site
-	memRel       string // "memory"
-	bareEditor   string // "tableEditor"
-	execRel      string // "sql/rowexec"
+	memRel       string              // "memory"
+	bareEditor   string              // "tableEditor"
+	execRel      string              // "sql/rowexec"
 	bulk         map[string][]string // interface in sqlRel -> methods that change rows / row identity in bulk
 	indexIface   string              // "Index"
 	isFullText   string              // "IsFullText"
@@ -69,11 +69,11 @@ var c51Repo = c51Params{
 	rExc: map[string]string{
 		"BaseBuilder.buildAlterDefaultSet/ModifyColumn":  "ALTER COLUMN … SET DEFAULT: the new column differs from the old one in its Default only; no stored row, column position or name changes, so no index-table row (word, key columns, row hash) can change",
 		"BaseBuilder.buildAlterDefaultDrop/ModifyColumn": "ALTER COLUMN … DROP DEFAULT: the new column differs from the old one in its Default only; no stored row, column position or name changes",
-		"BaseBuilder.buildRenameColumn/ModifyColumn":    "RENAME COLUMN: the column handed to ModifyColumn is a copy of the old one with a new Name (nc := *old; nc.Name = new) and a nil order; no stored row, column position, type or key changes and the backend renames the index expressions; repro/c51_test.go TestC51RenameColumnKeepsFullTextUsable shows INSERT/DELETE/MATCH stay in step after renaming the indexed and a non-indexed column",
+		"BaseBuilder.buildRenameColumn/ModifyColumn":     "RENAME COLUMN: the column handed to ModifyColumn is a copy of the old one with a new Name (nc := *old; nc.Name = new) and a nil order; no stored row, column position, type or key changes and the backend renames the index expressions; repro/c51_test.go TestC51RenameColumnKeepsFullTextUsable shows INSERT/DELETE/MATCH stay in step after renaming the indexed and a non-indexed column",
 		"updateDefaultsOnColumnRename/ModifyColumn":      "rewrites only the Default / Generated expressions of *other* columns that mention a renamed column (column references inside expressions); no stored row, column position, name or key changes; called on the way to the ModifyColumn of the renamed column itself (modifyColumnIter.Next, buildRenameColumn)",
 	},
 	f2Exc: map[string]string{
-		"TableEditor.Insert~Delete/filter/GlobalCount@GlobalCount:H:updateGlobalCount+RowCount:U": "duplicate-row regime: Delete decrements the global count of over-long words that Insert never counted; updateGlobalCount(…, false) finds no row for such a word and returns before any write (repro/c51_test.go TestC51LongWordDuplicateRowsStayConsistent passes on the pin)",
+		"TableEditor.Insert~Delete/filter/GlobalCount@GlobalCount:H:updateGlobalCount+RowCount:U":                       "duplicate-row regime: Delete decrements the global count of over-long words that Insert never counted; updateGlobalCount(…, false) finds no row for such a word and returns before any write (repro/c51_test.go TestC51LongWordDuplicateRowsStayConsistent passes on the pin)",
 		"TableEditor.Insert~Delete/filter/GlobalCount@DocCount:W+GlobalCount:H:updateGlobalCount+Position:W+RowCount:W": "last-row regime: same no-op decrement through updateGlobalCount(…, false) for a word that has no global-count row; the doc-count write in the same loop is the part that fails and is the listed finding",
 	},
 }
@@ -90,8 +90,8 @@ func init() {
 			"(A) attachment in package memory: every composite literal of the bare row editor (memory.tableEditor) sits in an unexported constructor, and every function that calls such a constructor passes, on every path from the call to a return, either the call that wraps the editor (the function that calls fulltext.CreateEditor and hands its result as a secondary to fulltext.CreateMultiTableEditor, returning the wrapped editor) or the no-index edge of `len(tableSets) > 0` where tableSets comes from the function that lists the table sets; that function skips an index only under !IsFullText(); every fulltext.TableSet literal of the module sets all of its fields; " +
 			"(R) bulk paths in sql/rowexec: every call of AddColumn/DropColumn/ModifyColumn (sql.AlterableTable), CreatePrimaryKey/DropPrimaryKey (sql.PrimaryKeyAlterableTable) or Truncate (sql.TruncateableTable) — the table operations that change stored rows, column positions or the key columns without going through a row editor — is followed on every non-failed path to a return by a call that reaches fulltext.RebuildTables, or leaves through the no-index edge of a test of the executor's has-FULLTEXT predicate.",
 		NotCovered: "tokenisation itself (which words a document yields, stop words, minimum word length), collation behaviour (that equal words hash/compare equal), relevance values and which rows MATCH … AGAINST returns, the arithmetic of the counters (row_count, doc_count, global_count values), that the index tables' own editors store what they are given, error paths (a failed statement is C15's clause; F1 only adds Close and type-derived completeness to C15-S5), concurrent sessions, integrator backends other than memory for clause A, and DDL that never calls one of the six bulk methods (RENAME TABLE, index DDL itself); T decides identity of the constructor and of the collation-deriving function, not that two different functions would be equivalent",
-		Technique: "type-derived obligation sets (struct fields implementing the editor interface) + CFG must-pass-through (go/cfg, error edges pruned) + per-path write-set families on the AST with helper summaries + source-origin normal forms (sibling agreement) + who-may-construct/call over go/types",
-		Run:       func(c *Ctx) { runC51(c, c51Repo) },
+		Technique:  "type-derived obligation sets (struct fields implementing the editor interface) + CFG must-pass-through (go/cfg, error edges pruned) + per-path write-set families on the AST with helper summaries + source-origin normal forms (sibling agreement) + who-may-construct/call over go/types",
+		Run:        func(c *Ctx) { runC51(c, c51Repo) },
 		Fixture: func(c *Ctx, fx *Prog) {
 			p := c51Repo
 			p.sqlRel, p.ftRel, p.memRel, p.execRel = "testdata/c51/sql", "testdata/c51/ft", "testdata/c51/mem", "testdata/c51/exec"
